@@ -286,6 +286,68 @@ fn params_behaviour(c: &Case) -> CaseResult {
     Ok(Verdict::nontrivial(format!("k={}", spec.k)))
 }
 
+/// `filecoin_srs(k)` derives the parameters for k from the big SRS file and caches them on disk:
+/// the first call, every later call (served from the cache) and the cached bytes must all be the
+/// parameter set derived for k. A throw-away SRS stands in for the Filecoin file (the function
+/// reads the size from the file header).
+fn srs_cache_check(c: &SrsCase) -> CaseResult {
+    use midnight_zk_stdlib::utils::plonk_api::filecoin_srs;
+    let dir = std::env::temp_dir().join(format!("c17-srs-{}-{}", std::process::id(), c.seed));
+    let _ = std::fs::remove_dir_all(&dir);
+    std::fs::create_dir_all(&dir).map_err(|e| Failure::new("harness:tempdir", e.to_string()))?;
+    let big = ParamsKZG::<Bls12>::unsafe_setup(c.big_k, ChaCha20Rng::seed_from_u64(c.seed));
+    std::fs::write(dir.join("bls_filecoin_2p19"), params_bytes(&big, SerdeFormat::RawBytesUnchecked)).map_err(|e| Failure::new("harness:write", e.to_string()))?;
+    // SRS_DIR is process-wide: this sub-check runs its cases one after the other
+    std::env::set_var("SRS_DIR", &dir);
+    let mut result = Ok(());
+    for (step, k) in c.ks.iter().enumerate() {
+        let k = (*k).min(c.big_k);
+        let mut want = big.clone();
+        want.downsize(k);
+        let want_bytes = params_bytes(&want, SerdeFormat::RawBytes);
+        let got = match vpcore::catch(|| filecoin_srs(k)) {
+            Ok(p) => p,
+            Err(p) => {
+                result = Err(Failure::new("filecoin_srs:panic", format!("step {step}, k = {k}: {p}")));
+                break;
+            }
+        };
+        if got.max_k() != k || params_bytes(&got, SerdeFormat::RawBytes) != want_bytes {
+            result = Err(Failure::new(
+                format!("filecoin_srs:{}:differs-from-downsized", if c.ks[..step].contains(&k) { "served-from-cache" } else { "first-call" }),
+                format!("call #{step} for k = {k} (big SRS k = {}): max_k = {}, parameters differ from the big SRS downsized to k; earlier calls {:?}", c.big_k, got.max_k(), &c.ks[..step]),
+            ));
+            break;
+        }
+        if k < c.big_k {
+            // the cache file is the encoding of what was returned
+            match std::fs::read(dir.join(format!("bls_filecoin_2p{k}"))) {
+                Ok(b) if b == params_bytes(&want, SerdeFormat::RawBytesUnchecked) => {}
+                Ok(b) => {
+                    result = Err(Failure::new("filecoin_srs:cache-file-differs-from-returned-parameters", format!("k = {k}: cache file of {} bytes, downsized parameters encode to {} bytes", b.len(), params_bytes(&want, SerdeFormat::RawBytesUnchecked).len())));
+                    break;
+                }
+                Err(e) => {
+                    result = Err(Failure::new("filecoin_srs:no-cache-file", format!("k = {k}: {e}")));
+                    break;
+                }
+            }
+        }
+    }
+    std::env::remove_var("SRS_DIR");
+    let _ = std::fs::remove_dir_all(&dir);
+    result?;
+    let repeats = c.ks.iter().enumerate().filter(|(i, k)| c.ks[..*i].contains(k)).count();
+    Ok(Verdict::of(repeats >= 1, format!("calls:{} repeated:{}", c.ks.len(), repeats.min(2))))
+}
+
+#[derive(Clone, Debug, Serialize, Deserialize)]
+struct SrsCase {
+    big_k: u32,
+    ks: Vec<u32>,
+    seed: u64,
+}
+
 fn main() {
     vpcore::main("C17", "exploration", (1800, 10800), |p| {
         p.assume("thread schedules are explored only through rayon pool sizes {1,2,3,8,16}");
@@ -327,6 +389,28 @@ fn main() {
             false,
             params_check,
         );
+        {
+            let mut rng = SplitMix(p.seed ^ 0x5125);
+            let mut items = vec![];
+            for big_k in if p.quick() { vec![6u32, 8] } else { vec![4, 6, 8, 10] } {
+                for _ in 0..p.tier.pick(3, 8) {
+                    let n = 3 + rng.below(4) as usize;
+                    let mut ks: Vec<u32> = (0..n).map(|_| 1 + rng.below(big_k as u64) as u32).collect();
+                    // at least one size asked twice
+                    let again = ks[rng.below(ks.len() as u64) as usize];
+                    ks.push(again);
+                    items.push(SrsCase { big_k, ks, seed: rng.next_u64() });
+                }
+            }
+            p.enumerate(
+                "filecoin_srs.cache",
+                "filecoin_srs(k) against a throw-away big SRS in a fresh SRS_DIR, a sequence of 4..7 calls with repeated sizes: every call (first, and served from the cache file) returns the big SRS downsized to k, and the cache file is the encoding of those parameters; non-trivial = a size is asked at least twice",
+                items,
+                1,
+                false,
+                srs_cache_check,
+            );
+        }
         p.sub_cfg(
             "params.behaviour",
             "small E1 circuits: verifier parameters written and read back in each format, and verifier parameters of prover parameters read back in each format, accept the honest proof and refuse a corrupted one exactly like the original parameters; every case non-trivial",
